@@ -549,6 +549,18 @@ func scScenario(c *Ctx, cdb *store.ChainDatabase, scn int) {
 			if c.Rnd.Intn(3) == 0 && len(w.roots) > 0 { // Account.SetStorageRoot: another root + Reset
 				sc.root = w.roots[c.Rnd.Intn(len(w.roots))]
 				c.Count("sc.reset:+other-root")
+				// the property's clause itself (seed C17k: Reset kept the non-dirty cached entries of the OLD root): after the
+				// switch every key read through this cache equals the read through a cache freshly opened on the same root
+				if !w.wiped && w.saved[sc.root] {
+					nc := open(sc.root)
+					for j := range w.pool {
+						a, b := doGet(cur, sc.root, j), doGet(nc, sc.root, j)
+						if !bytes.Equal(a, b) {
+							c.Fail("c17/read-after-root-switch-differs-from-reopened-root", fmt.Sprintf("cache %d switched to root %s (Reset): key %d reads %s, a cache freshly opened on that root reads %s", cur, w.rootTok(sc.root), j, sVal(a), sVal(b)), nil)
+						}
+					}
+					c.Count("sc.reset:+other-root:read-sweep-vs-fresh-cache")
+				}
 			}
 		case r < 95:
 			if !w.saved[sc.root] && c.Rnd.Intn(4) != 0 { // mostly after Finalise + Save, as a restart would see it
